@@ -409,7 +409,23 @@ def to_int(interp, x=0, base=10):
     if isinstance(x, SBool):
         return mk_num(z3.If(x.term, 1, 0))
     if isinstance(x, SReal):
-        raise Unsupported("int() of real")
+        # int(float) truncates toward zero.  For a quotient num/den (den > 0) the result k is defined by
+        # k*den <= num < (k+1)*den (num >= 0) or the mirrored condition (num < 0): no division term is left.
+        c = ctx()
+        t = x.term
+        k = z3.Int(c.fresh_name("trunc"))
+        if z3.is_app(t) and t.decl().kind() == z3.Z3_OP_DIV:
+            num, den = t.arg(0), t.arg(1)
+            if not interp.truth(mk_bool(den > 0)):
+                raise Unsupported("int() of a quotient with a possibly non-positive divisor")
+        else:
+            num, den = t, z3.RealVal(1)
+        kr = z3.ToReal(k)
+        if interp.truth(mk_bool(num >= 0)):
+            c.assume(z3.And(kr * den <= num, num < (kr + 1) * den))
+        else:
+            c.assume(z3.And((kr - 1) * den < num, num <= kr * den))
+        return mk_num(k)
     if isinstance(x, SSeq):
         t = x.term
         if base == 10:
